@@ -527,6 +527,36 @@ pub fn f5() -> Fragment {
                 get(op(Op::Range, vec![app("failure", vec![E::Num(n)]), c(E::Num(200))])),
             ]));
         }
+        // arguments that carry an optionality mark (they are unary operations, not terminals):
+        // every combination on a two-parameter function whose body uses both parameters bare
+        for m1 in [None, Some(true), Some(false)] {
+            for m2 in [None, Some(true), Some(false)] {
+                let arg = |n: &str, m: Option<bool>| match m {
+                    Some(r) => E::Mark(Box::new(var(n)), r),
+                    None => var(n),
+                };
+                extra.push(single(vec![
+                    let_("pa", prop("a", str_())),
+                    let_("pb", prop("b", num())),
+                    fun("pair", &["p", "q"], obj(vec![var("p"), var("q"), prop("z", E::Prim(Prim::Bool))])),
+                    get(content(app("pair", vec![arg("pa", m1), arg("pb", m2)]))),
+                ]));
+                // the same called from a function whose parameter is named like the callee's last one
+                extra.push(single(vec![
+                    let_("pa", prop("a", str_())),
+                    fun("pair", &["p", "q"], obj(vec![var("p"), var("q")])),
+                    fun("entity", &["q"], app("pair", vec![arg("pa", m1), E::Mark(Box::new(E::Paren(Box::new(prop("meta", obj(vec![var("q")]))))), m2.unwrap_or(true))])),
+                    get(content(app("entity", vec![prop("name", str_())]))),
+                ]));
+            }
+        }
+        // the built-in function, used directly and through declarations
+        extra.push(single(vec![
+            let_("base", uri_lit(&["api"])),
+            let_("items", app("concat", vec![var("base"), uri_lit(&["items"])])),
+            Stmt::Res(rel(var("items"), vec![xfer(Method::Get, content(obj(vec![prop("self", var("items"))])))])),
+            Stmt::Res(rel(app("concat", vec![var("items"), E::Uri(vec![Seg::Var(Box::new(prop("id", num())))], None)]), vec![xfer(Method::Get, E::Content(vec![], None))])),
+        ]));
         // in a URI, in the parameters and as the range of a transfer
         let f = fun("at", &["item"], E::Uri(vec![Seg::Lit("a".into()), Seg::Var(Box::new(var("item")))], None));
         extra.push(single(vec![f, Stmt::Res(rel(app("at", vec![prop("id", num())]), vec![xfer(Method::Get, E::Content(vec![], None))]))]));
@@ -701,6 +731,15 @@ fn rec_bodies(holes: &[E]) -> Vec<E> {
         out.push(E::Rec("z".into(), Box::new(obj(vec![prop("p", h.clone()), prop("q", arr(var("z")))]))));
         out.push(E::Rec("z".into(), Box::new(obj(vec![prop("p", h.clone())]))));
     }
+    // a rec binder spelled like a declaration, used before a mention of the declaration itself
+    for h in holes {
+        if let E::Var(None, name) = h {
+            out.push(obj(vec![
+                prop("x", E::Rec(name.clone(), Box::new(obj(vec![prop("k", arr(var(name)))])))),
+                prop("p", arr(h.clone())),
+            ]));
+        }
+    }
     // a nested rec before / after the mention that may close a cycle
     for h in holes {
         let r = E::Rec("y".into(), Box::new(arr(var("y"))));
@@ -784,6 +823,20 @@ pub fn f6_rec_programs() -> Vec<Program> {
             st.push(get(content(obj(props))));
             programs.push(single(st));
         }
+    }
+    // two different recs that use the same binder name: in two declarations, in one object, in
+    // one declaration and in a function body
+    {
+        let r1 = E::Rec("x".into(), Box::new(obj(vec![prop("n", arr(var("x"))), prop("one", num())])));
+        let r2 = E::Rec("x".into(), Box::new(obj(vec![prop("m", arr(var("x"))), prop("two", str_())])));
+        programs.push(single(vec![let_("a", r1.clone()), let_("b", r2.clone()), get(content(obj(vec![prop("a", var("a")), prop("b", var("b"))])))]));
+        programs.push(single(vec![get(content(obj(vec![prop("l", r1.clone()), prop("r", r2.clone())])))]));
+        programs.push(single(vec![get(content(r1.clone())), get_at("b", content(r2.clone()))]));
+        programs.push(single(vec![
+            let_("a", r1.clone()),
+            fun("f", &["z"], obj(vec![prop("v", var("z")), prop("t", r2.clone())])),
+            get(content(obj(vec![prop("a", var("a")), prop("f", app("f", vec![num()]))]))),
+        ]));
     }
     // rec whose body uses the parameter: instantiations must not be shared
     let tree = fun(
@@ -985,6 +1038,52 @@ pub fn f7() -> Fragment {
             let_("@a", obj(vec![prop("b", var("@b"))])),
             let_("@b", obj(vec![prop("a", arr(var("@a")))])),
             get(content(var("@a"))),
+        ],
+        // a reference / recursive declaration used more than once where its *value* is needed
+        // (headers, the URI of a relation, a relation, a concat operand), not only as a schema
+        vec![
+            let_("@h", obj(vec![prop("X-Page", num())])),
+            get(E::Content(vec![(Meta::Headers, var("@h"))], Some(Box::new(o.clone())))),
+            get_at("b", E::Content(vec![(Meta::Headers, var("@h"))], Some(Box::new(o.clone())))),
+        ],
+        vec![
+            let_("@h", obj(vec![prop("X-Page", num())])),
+            get(content(var("@h"))),
+            get_at("b", E::Content(vec![(Meta::Headers, var("@h"))], Some(Box::new(o.clone())))),
+            get_at("c", E::Content(vec![(Meta::Headers, var("@h"))], None)),
+        ],
+        vec![
+            let_("@u", uri_lit(&["items"])),
+            Stmt::Res(rel(var("@u"), vec![xfer(Method::Get, content(obj(vec![prop("self", var("@u"))])))])),
+            Stmt::Res(rel(app("concat", vec![var("@u"), uri_lit(&["more"])]), vec![xfer(Method::Get, content(obj(vec![prop("up", var("@u"))])))])),
+        ],
+        vec![
+            let_("@r", rel(uri_lit(&["r"]), vec![xfer(Method::Get, content(num()))])),
+            get(content(obj(vec![prop("link", var("@r")), prop("again", var("@r"))]))),
+            Stmt::Res(var("@r")),
+        ],
+        vec![
+            let_("item", rel(uri_lit(&["item"]), vec![xfer(Method::Get, content(obj(vec![prop("next", var("item"))])))])),
+            get(content(obj(vec![prop("first", var("item"))]))),
+            Stmt::Res(var("item")),
+        ],
+        vec![
+            let_("item", rel(uri_lit(&["item"]), vec![xfer(Method::Get, content(obj(vec![prop("next", var("item"))])))])),
+            Stmt::Res(var("item")),
+            get(content(obj(vec![prop("first", var("item"))]))),
+        ],
+        vec![
+            let_("node", obj(vec![prop("v", num()), prop("kids", arr(var("node")))])),
+            get(content(var("node"))),
+            get_at("b", E::Content(vec![(Meta::Headers, var("node"))], Some(Box::new(o.clone())))),
+        ],
+        // reference names over the whole identifier alphabet ($, -, _, digits)
+        vec![
+            let_("@$error", obj(vec![prop("code", num())])),
+            let_("@x-y_z", arr(var("@$error"))),
+            let_("@9", obj(vec![prop("e", var("@$error")), prop("l", var("@x-y_z"))])),
+            get(content(var("@9"))),
+            get_at("b", op(Op::Range, vec![content(var("@x-y_z")), E::Content(vec![(Meta::Status, status(404))], Some(Box::new(var("@$error"))))])),
         ],
         // ref through a plain alias and through a function
         vec![let_("@a", o.clone()), let_("c", var("@a")), get(content(var("c")))],
